@@ -15,11 +15,14 @@ use gimli::{
 };
 use serde_json::{json, Value};
 
+#[path = "c05_corpus.rs"]
+mod corpus;
+
 pub fn info() -> PropInfo {
     PropInfo {
         id: "C05",
         level: "exploration",
-        rule: "Sections are assembled by gen/cfi.rs (independent of gimli::write) together with a model of every entry. Streams: `enc` = each of the 256 pointer-encoding bytes x 5 roles (CIE personality 'P', FDE address encoding 'R', LSDA encoding 'L', .eh_frame_hdr eh_frame_ptr, .eh_frame_hdr table/count encodings) x the 8 subsets of {section, text, data} bases x address sizes 1/2/4/8 x sign-boundary raw values, both byte orders: accept/reject, the decoded pointer or the specific error; DwEhPe::is_valid_encoding/format/application/is_indirect on all 256 bytes. `aug` = the 65 strings 'z' + permutation of a subset of LPRS and 16 malformed strings x CIE version 1/3/4 (and unknown versions) x .debug_frame/.eh_frame x 32/64-bit entries with boundary factors, return registers, v4 address/segment sizes: every accessor of the CIE and of an FDE bound to it, instruction streams decoded back. `sec` = random well-formed sections with 1-8 CIEs and 0-40 FDEs in any order (shared and interleaved CIEs, forward CIE references in .debug_frame), disjoint ranges, zero-length entries, terminators followed by unreachable junk; iteration, FDE->CIE binding (get_cie callback offset), *_from_offset at every entry, and at start-1/start/start+1/end-1/end/end+1 of every FDE, 0 and the address mask: fde_for_address (linear), unwind_info_for_address (rows from model::cfi), FrameDescriptionEntry::contains and, for .eh_frame, EhHdrTable::{iter,nth,lookup,pointer_to_offset,fde_for_address,unwind_info_for_address} with table encodings {u,s}data{2,4,8} x {abs,pcrel,datarel,textrel} against an exhaustive scan. A case is non-trivial when the section has at least one CIE; enumerated cases are distinct by construction, random ones are de-duplicated by section digest.",
+        rule: "Sections are assembled by gen/cfi.rs (independent of gimli::write) together with a model of every entry. Streams: `enc` = each of the 256 pointer-encoding bytes x 5 roles (CIE personality 'P', FDE address encoding 'R', LSDA encoding 'L', .eh_frame_hdr eh_frame_ptr, .eh_frame_hdr table/count encodings) x the 8 subsets of {section, text, data} bases x address sizes 1/2/4/8 x sign-boundary raw values, both byte orders: accept/reject, the decoded pointer or the specific error; DwEhPe::is_valid_encoding/format/application/is_indirect on all 256 bytes. `aug` = the 65 strings 'z' + permutation of a subset of LPRS and 16 malformed strings x CIE version 1/3/4 (and unknown versions) x .debug_frame/.eh_frame x 32/64-bit entries with boundary factors, return registers, v4 address/segment sizes: every accessor of the CIE and of an FDE bound to it, instruction streams decoded back. `sec` = random well-formed sections with 1-8 CIEs and 0-40 FDEs in any order (shared and interleaved CIEs, forward CIE references in .debug_frame), disjoint ranges, zero-length entries, terminators followed by unreachable junk; iteration, FDE->CIE binding (get_cie callback offset), *_from_offset at every entry, and at start-1/start/start+1/end-1/end/end+1 of every FDE, 0 and the address mask: fde_for_address (linear), unwind_info_for_address (rows from model::cfi), FrameDescriptionEntry::contains and, for .eh_frame, EhHdrTable::{iter,nth,lookup,pointer_to_offset,fde_for_address,unwind_info_for_address} with table encodings {u,s}data{2,4,8} x {abs,pcrel,datarel,textrel} against an exhaustive scan. A case is non-trivial when the section has at least one CIE; enumerated cases are distinct by construction, random ones are de-duplicated by section digest. `corpus` (external-tool oracle; mon/corpus.rs) = small C (two translation units + a header in a sub-directory) and C++ (templates, inlining, virtual calls, destructors, throw/catch) programs compiled and linked at check time with gcc 12 / clang 14: quick tier 4 configurations (g++ -gdwarf-5 -O2; clang -gdwarf-5 -O2 -fno-asynchronous-unwind-tables; gcc -m32 -gdwarf-3 -O2 static without libc; clang++ -gdwarf-4 -O0), thorough tier 58 ({gcc,clang} x -gdwarf-{2,3,4,5} x {-O0,-O2} x {C,C++}, -gdwarf64 with gcc-written line tables, -fdebug-types-section, .debug_frame builds, 32-bit builds, --gc-sections, frame pointers, -Os/-O3); one case per configuration, sharded by index; executables and tool dumps are cached under .work/corpus by a hash of compiler version, flags and sources. For C05 every CIE/FDE of .eh_frame and .debug_frame is compared with `llvm-dwarfdump --eh-frame` (offset, length, format, version, augmentation z/L/P/R/S with the three encodings and the personality pointer decoded independently from the printed augmentation data bytes, v4 address size, alignment factors, return register, FDE->CIE binding, pc range, LSDA) and, for the addresses start-1, start, start+1, end-1, end of every FDE and 0, linear fde_for_address, EhHdrTable::fde_for_address, unwind_info_for_address (section and table variants) are compared with an exhaustive scan over llvm's FDE list; the linker-built .eh_frame_hdr must point at .eh_frame and list exactly llvm's FDEs sorted by initial location. Non-trivial when llvm printed at least one entry; distinct by digest of the section.",
         assumptions: &[
             "generated FDE ranges never overlap and never wrap past the top of the address space; the .eh_frame_hdr table is sorted by decoded initial location as the format requires",
             "DW_EH_PE_omit where a pointer is required (personality, FDE addresses under 'R', LSDA under 'L', eh_frame_ptr) is an error (CannotParseOmitPointerEncoding), DW_EH_PE_aligned is UnsupportedPointerEncoding (pinned tree, Appendix A.5)",
@@ -27,6 +30,9 @@ pub fn info() -> PropInfo {
             "under an 'R' encoding the FDE's address range is the raw value of the encoding's format (no base, sign-extended for signed formats)",
             "the address size for .eh_frame and pre-v4 .debug_frame is the one given to the section",
             "indirect .eh_frame_hdr table encodings are only required not to produce a successful lookup",
+            "corpus: llvm-dwarfdump 14 is the oracle; tool/compiler failures and unparsable dumps are inconclusive, never violations",
+            "corpus normalisations (presentation only): Pointer::Direct/Indirect are compared by value and the indirect flag separately against bit 0x80 of the encoding; llvm prints the personality/LSDA/pc values after applying the pc-relative base (gimli is given the section addresses of .eh_frame, .eh_frame_hdr, .text, .got as bases); the augmentation string is compared through gimli's accessors (augmentation().is_some(), lsda_encoding, personality_with_encoding, fde_address_encoding, is_signal_trampoline); address_size is compared for CIE version >= 4 only",
+            "corpus: probe addresses covered by more than one FDE (tombstoned .debug_frame FDEs at address 0 after --gc-sections) are skipped; the .eh_frame_hdr table comparison is skipped when two FDEs share an initial location",
         ],
         exhaustive_subspaces: &[
             "all 256 DW_EH_PE bytes x 5 roles x 8 base subsets x 4 address sizes",
@@ -44,6 +50,9 @@ pub fn info() -> PropInfo {
             "hdr.enc.udata2", "hdr.enc.sdata2", "hdr.enc.udata4", "hdr.enc.sdata4", "hdr.enc.udata8", "hdr.enc.sdata8", "hdr.app.abs", "hdr.app.pcrel", "hdr.app.datarel",
             "hdr.entries.1", "hdr.entries.40", "hdr.version.unknown",
             "addr.1", "addr.2", "addr.4", "addr.8",
+            "corpus.object", "corpus.cc.gcc", "corpus.cc.clang", "corpus.lang.c", "corpus.lang.cpp", "corpus.cfi.eh_frame", "corpus.cfi.debug_frame", "corpus.cfi.cie", "corpus.cfi.fde",
+            "corpus.cfi.cie.v1", "corpus.cfi.cie.v4", "corpus.cfi.aug.P", "corpus.cfi.aug.P.indirect", "corpus.cfi.aug.L", "corpus.cfi.aug.R", "corpus.cfi.aug.none", "corpus.cfi.fde.lsda", "corpus.cfi.addr4",
+            "corpus.cfi.hdr.entries", "corpus.cfi.lookup.linear.hit", "corpus.cfi.lookup.linear.miss", "corpus.cfi.lookup.unwind.hit", "corpus.cfi.lookup.unwind.miss", "corpus.cfi.hdr.lookup.hit", "corpus.cfi.hdr.lookup.miss",
         ],
         run,
     }
@@ -1238,6 +1247,7 @@ fn hdr_lookups<'a>(ctx: &mut Ctx, sec: &EhFrame<Rd<'a>>, spec: &SectionSpec, bui
 }
 
 pub fn run(ctx: &mut Ctx) {
+    corpus::run(ctx);
     enc_stream(ctx);
     aug_stream(ctx);
     sec_stream(ctx);
